@@ -208,11 +208,30 @@ func (vc *VC) binop(pos token.Pos, op token.Token, x, y SV, xt, yt, rt types.Typ
 	}
 	// comparisons
 	switch op {
-	case token.EQL:
-		res.T = vc.goEq(xt, a, b)
-		return res
-	case token.NEQ:
-		res.T = not(vc.goEq(xt, a, b))
+	case token.EQL, token.NEQ:
+		if a == b && numRe.MatchString(a) {
+			res.T = "true"
+			if op == token.NEQ {
+				res.T = "false"
+			}
+			return res
+		}
+		if va, oka := bvLit(a); oka {
+			if vb, okb := bvLit(b); okb && len(a) == len(b) {
+				eq := va.Cmp(vb) == 0
+				if (op == token.EQL) == eq {
+					res.T = "true"
+				} else {
+					res.T = "false"
+				}
+				return res
+			}
+		}
+		if op == token.EQL {
+			res.T = vc.goEq(xt, a, b)
+		} else {
+			res.T = not(vc.goEq(xt, a, b))
+		}
 		return res
 	}
 	if isBool(xt) {
@@ -294,6 +313,10 @@ func (vc *VC) binop(pos token.Pos, op token.Token, x, y SV, xt, yt, rt types.Typ
 	}
 	if vc.mode == Math {
 		return vc.binopMath(pos, op, a, b, bits, signed, yt, rt, pc, y)
+	}
+	if folded, ok := foldBV(op, a, b, bits, signed); ok {
+		res.T = folded
+		return res
 	}
 	sel := func(s, u string) string {
 		if signed {
@@ -670,3 +693,75 @@ func (vc *VC) mathIntrinsic(name string, args []SV, rt types.Type) (SV, bool) {
 }
 
 var _ = strings.Contains
+
+// bvLit parses a #x / #b bit-vector literal.
+func bvLit(s string) (*big.Int, bool) {
+	if strings.HasPrefix(s, "#x") {
+		v, ok := new(big.Int).SetString(s[2:], 16)
+		return v, ok
+	}
+	if strings.HasPrefix(s, "#b") {
+		v, ok := new(big.Int).SetString(s[2:], 2)
+		return v, ok
+	}
+	return nil, false
+}
+
+func bvFmt(v *big.Int, bits int) string {
+	m := new(big.Int).Lsh(big.NewInt(1), uint(bits))
+	w := new(big.Int).Mod(v, m)
+	if bits%4 == 0 {
+		return fmt.Sprintf("#x%0*s", bits/4, w.Text(16))
+	}
+	return fmt.Sprintf("#b%0*s", bits, w.Text(2))
+}
+
+func toSigned(v *big.Int, bits int) *big.Int {
+	h := new(big.Int).Lsh(big.NewInt(1), uint(bits-1))
+	if v.Cmp(h) >= 0 {
+		return new(big.Int).Sub(v, new(big.Int).Lsh(big.NewInt(1), uint(bits)))
+	}
+	return v
+}
+
+// foldBV folds an integer operation on two literals of the same width.
+func foldBV(op token.Token, a, b string, bits int, signed bool) (string, bool) {
+	va, oka := bvLit(a)
+	vb, okb := bvLit(b)
+	if !oka || !okb || len(a) != len(b) {
+		return "", false
+	}
+	boolS := func(x bool) (string, bool) {
+		if x {
+			return "true", true
+		}
+		return "false", true
+	}
+	ca, cb := va, vb
+	if signed {
+		ca, cb = toSigned(va, bits), toSigned(vb, bits)
+	}
+	switch op {
+	case token.ADD:
+		return bvFmt(new(big.Int).Add(va, vb), bits), true
+	case token.SUB:
+		return bvFmt(new(big.Int).Sub(va, vb), bits), true
+	case token.MUL:
+		return bvFmt(new(big.Int).Mul(va, vb), bits), true
+	case token.AND:
+		return bvFmt(new(big.Int).And(va, vb), bits), true
+	case token.OR:
+		return bvFmt(new(big.Int).Or(va, vb), bits), true
+	case token.XOR:
+		return bvFmt(new(big.Int).Xor(va, vb), bits), true
+	case token.LSS:
+		return boolS(ca.Cmp(cb) < 0)
+	case token.LEQ:
+		return boolS(ca.Cmp(cb) <= 0)
+	case token.GTR:
+		return boolS(ca.Cmp(cb) > 0)
+	case token.GEQ:
+		return boolS(ca.Cmp(cb) >= 0)
+	}
+	return "", false
+}
